@@ -125,6 +125,7 @@ impl Sim for BootcacheSim {
                 "timestamps are placed >= 61 s from every boundary and a run lasts milliseconds, so the wall clock never decides a comparison (a run longer than 20 s is a harness error)",
                 "getrandom is the only entropy source (HashMap order, temp file names); writer threads reseed the shim with a seed derived from the run's entropy",
                 "all processes of one run use the same limits and expiry",
+                "try_remove_oldest_peers ranks peers by last_seen.elapsed() evaluated one address after the other, so a preemption inside that loop can invert the order of two stamps taken microseconds apart; the sim keeps stamps >= 100 us apart, reads a guarded timer around the ranking, and re-executes the plan on a fresh thread when the ranking lasted long enough to matter (probe reexecuted_after_preemption_in_clock_sensitive_call)",
             ],
         }]
     }
